@@ -36,6 +36,15 @@ func newC11Mon(h *lockHist) *c11Mon {
 	for _, c := range h.post.Locking.Slashed {
 		addTo(m.lockedIn, c.Denom, c.Amount.BigInt())
 	}
+	// a chain that starts from an exported state may already have releases under way
+	for _, q := range h.post.Locking.UnlockQueue {
+		for _, u := range q.Unlocks {
+			addTo(m.lockedIn, unlockDenom(u), bi(u.Amount))
+		}
+	}
+	for _, u := range h.post.Locking.EthTxQueue.Unlocks {
+		addTo(m.lockedIn, unlockDenom(u), bi(u.Amount))
+	}
 	return m
 }
 
